@@ -160,3 +160,7 @@ def run(ctx):
                   'a short copy zeroes the tail of every realigned survivor: success with wrong bytes')
     c01.rule_realign(ctx, P, rb, rc)
     rb.require_min(5); rc.require_min(2)
+    r = ctx.rule('R05i', 'bitmaps assembled from an index list in a loop accumulate (|=), they are not overwritten',
+                 'with "=" only the last listed element is rebuilt / counted: success with stale buffers for two or more erasures')
+    shared.rule_bitmap_accumulation(ctx, P, r)
+    r.require_min(1)
